@@ -12,7 +12,8 @@ EXPLANATION = (
     'set = flag:=1 then notify_all, wait re-reads the flag after waiting (R-EVENT-LOCKED); get/setstate agreement for '
     'SemLock and Condition (R-STATE-SYM); wait releases exactly the recursion level, as an evaluated term '
     '(R-COND-PAIR). Also decided: no token operation of the protocol sits inside an assert; the counting semaphores '
-    'start at 0 (R-COND-TOKENS, R-SEM-TABLE). NOT decided -- and not decidable in this family: that the '
+    'start at 0 (R-COND-TOKENS, R-SEM-TABLE); the after-fork hooks have the arity the stdlib calls them with and '
+    'reset the forked copy (R-AFTER-FORK). NOT decided -- and not decidable in this family: that the '
     'three-semaphore protocol is correct under every interleaving (a model-checking question).'
 )
 
@@ -25,4 +26,5 @@ def run(e, R, tier):
         S.r_event_locked,
         lambda e, R: S.r_state_sym(e, R, which=("Condition", "SemLock")),
         S.r_ctx_factory,
+        S.r_after_fork,
     ])
